@@ -26,7 +26,8 @@ RULE = ("generated baselines (heating-only / cooling-only / both / flat, weekday
 ASSUMPTIONS = ["observed ranges are those of the baseline days the sub-model was fitted on (its season/day-type cells, rows with finite usage and temperature)",
                "range checks carry a tolerance of 1e-9 of the range",
                "the segment limits are the n-th smallest / largest fitted temperature, n = segment_minimum_count"]
-REQUIRED_REACH = {"fit.done": 10, "submodel.judged": 10, "component.curve_compared": 60, "hook.optimized_result": 100, "component.final_compared": 10}
+REQUIRED_REACH = {"fit.done": 10, "submodel.judged": 10, "component.curve_compared": 60, "hook.optimized_result": 100, "component.final_compared": 10,
+                  "component.uncertainty_judged": 60, "component.effective_sample_size_at_its_floor": 1, "data.autocorrelated_residuals": 3, "data.base_load_step": 2}
 
 VIOL = []
 
@@ -158,6 +159,13 @@ def classify_curve_mismatch(comp):
 
 def judge_component(name, comp, final):
     I.reach("component.curve_compared")
+    fu = float(getattr(comp, "f_unc", float("nan")))
+    I.reach("component.uncertainty_judged")
+    if float(getattr(comp, "DoF", 99)) <= 1:
+        I.reach("component.effective_sample_size_at_its_floor")
+    if not math.isfinite(fu) or fu < 0:
+        add("uncertainty-negative-or-non-finite", "%s component %s: f_unc=%r (N=%r, DoF=%r)" % ("final" if final else "selection", name, fu, getattr(comp, "N", None), getattr(comp, "DoF", None)),
+            component=name, final=final)
     if final:
         I.reach("component.final_compared")
     T = np.asarray(comp.T, dtype=float)
@@ -191,6 +199,12 @@ def gen_cases(tier, seed):
         cases.append(dict(kind="fit", profile=profs[i % (4 if q else len(profs))], usage=["both", "heating", "cooling", "flat"][i % 4],
                           weekend=[0.0, 0.3, 0.0, 0.5][(i // 4) % 4], season=[0.0, 0.0, 0.25][(i // 3) % 3], noise=[0.01, 0.05, 0.2, 0.1][(i // 2) % 4],
                           outliers=[0, 0, 6][i % 3], tz=zones[i % len(zones)], n_days=[365, 330, 350][i % 3], round_T=bool(i % 5 == 4), n=i, timeout=2400))
+    na = 8 if q else 60
+    for j in range(na):
+        i = n + j
+        cases.append(dict(kind="fit", profile=["current", "legacy"][j % 2], usage=["both", "heating", "cooling", "flat"][j % 4], weekend=0.0, season=0.0,
+                          noise=[0.01, 0.03][j % 2], outliers=0, tz=zones[j % len(zones)], n_days=365, round_T=False, n=i, timeout=2400,
+                          ar=[0.97, 0.99, 0.0, 0.9][j % 4] or None, step=[0.0, 0.0, 0.6, 0.3][j % 4] or None))
     return cases
 
 
@@ -206,6 +220,18 @@ def run_case(spec):
         df = FT.daily_baseline_df(rng, tz=spec["tz"], kind=spec["usage"], n=spec["n_days"], noise=spec["noise"], weekend=spec["weekend"], season=spec["season"], outliers=spec["outliers"])
         if spec["round_T"]:
             df["temperature"] = df["temperature"].round(0)             # ties in the temperature order statistics
+        if spec.get("ar"):
+            # non-weather load that persists from day to day (strongly autocorrelated residuals: the effective sample size collapses)
+            rho, e, z = float(spec["ar"]), np.zeros(len(df)), rng.normal(0, 1, len(df))
+            for i in range(1, len(df)):
+                e[i] = rho * e[i - 1] + z[i] * math.sqrt(1 - rho * rho)
+            df["observed"] = df["observed"] * (1 + 0.15 * e)
+            I.reach("data.autocorrelated_residuals")
+        if spec.get("step"):
+            # a step change of the base load in the middle of a season (new equipment)
+            k = int(rng.integers(40, len(df) - 40))
+            df.iloc[k:, df.columns.get_loc("observed")] += float(spec["step"]) * float(np.nanmean(df["observed"]))
+            I.reach("data.base_load_step")
         data = em.DailyBaselineData(df, is_electricity_data=True)
         m = FT.make_daily_model(prof).fit(data, ignore_disqualification=True)
     I.reach("fit.done")
